@@ -13,7 +13,7 @@ CLAIMS = {
  "C01": ("exploration", "Seeded deterministic simulation of 2-4 real nodes: conflicting histories, arbitrary delivery order / duplication / loss / re-chunking, partial sync sessions, crashes; after faults stop, fair sync rounds must reach identical tables and per-cell (col_version, cl) on all nodes, equal to a corrosion-free cr-sqlite merge of all acknowledged transactions; a fixpoint without convergence is a violation.", "3 C01"),
  "C02": ("exploration", "After every simulated step the advertised sync state of every node is compared with a holdings model built only from what the simulator delivered and what the steps acknowledged; gap rows, partial rows and a reload (BookedVersions::from_conn) are compared with the in-memory view.", "3 C02"),
  "C03": ("exploration", "After every step node tables and CRDT metadata must equal a reference database that merged exactly the changes delivered for versions the model says are applied (so nothing of an incomplete version is visible, and a complete one is visible entirely); apply triggers are checked against chunk coverage; buffered leftovers are checked after convergence. Workload biased to multi-chunk transactions, sim re-cuts and relays.", "3 C03"),
- "C04": ("exploration", "Every sync session of the simulated runs checks compute_available_needs against a set model over (actor, version, seq) of the two real states (including stale peer states): complete, within advertised heads, never the own actor. Decided on reached state pairs only. The sender loop of parallel_sync (request chunking and de-duplication on the wire) is not run against an oracle.", "3 C04"),
+ "C04": ("exploration", "Every sync session of the simulated runs checks compute_available_needs against a set model over (actor, version, seq) of the two real states (including stale peer states): complete, within advertised heads, never the own actor. Decided on reached state pairs only. WireSync events additionally run the production client loop (parallel_sync) against 1-3 real servers (serve_sync) over the nodes' QUIC endpoints: the needs the client computed per server pass the same oracle, every Request frame read by a server lies inside the needs computed for it, and the union of all frames equals the union of the computed needs (request chunking and cross-server de-duplication lose nothing).", "3 C04"),
  "C05": ("exploration", "Every simulated sync session runs the real process_sync/handle_need against reached server states (applied, overwritten, cleared, partially buffered, needed) with computed and scripted needs; each answer is checked against the server's holdings model and live rows; never Empty for needed/partial versions.", "3 C05"),
  "C06": ("exploration", "Crashes are injected at arbitrary step boundaries (snapshot of db/wal/shm, restart through the production start-up path, optional loss of unsent broadcasts); after restart all per-step oracles (acknowledged writes present, advertised == durably held, re-scheduling of fully buffered versions) and finally convergence must hold.", "3 C06"),
  "C07": ("exploration", "Every local transaction of the simulated runs (including failing statements at any position, no-ops, large ones) is checked: version = previous+1, announcement chunks tile 0..=last_seq with exactly the committed changes, same statements on a reference database give the same tables, rejected/no-op requests change nothing and consume no version, no gap in own versions.", "3 C07"),
